@@ -9,6 +9,7 @@
 -/
 import ParsleyVerif.Proofs.ReaderWs
 import ParsleyVerif.Proofs.Utf8
+import ParsleyVerif.Proofs.FactsTie
 namespace PV.Text
 
 /-- ReadRune, ASCII rune -/
@@ -159,5 +160,13 @@ theorem c09_facts :
 theorem c09_facts_wsmodes :
     Facts.wsModeCases = "wsMode==WsNone&&cur>int(pos)-r.file.offset=>returnr.file.Pos(cur),parsley.NewError(pos,wsNoneErr);wsMode==WsSpacesForceNl&&nlPos==0=>returnr.file.Pos(cur),parsley.NewError(r.file.Pos(cur),wsSpacesForceNlErr);wsMode==WsSpaces&&nlPos>0=>returnr.file.Pos(cur),parsley.NewError(nlPos,wsSpacesErr)" :=
   rfl
+
+/-- the expressions of Remaining, IsEOF and isWordCharacter, TRANSLATED from the Go source on every run
+    (Generated/FactsFn.lean), are the model's definitions -/
+theorem c09_translated_expressions :
+    (∀ f pos, remaining f pos = FactsFn.remaining f.len pos f.offset) ∧
+    (∀ f pos, isEOF f pos = FactsFn.isEOF f.len pos f.offset) ∧
+    (∀ b, isWordByte b = FactsFn.isWordCharacter b) :=
+  ⟨PV.tie_remaining, PV.tie_isEOF, PV.tie_isWordByte⟩
 
 end PV.Text
